@@ -275,9 +275,11 @@ impl Evaluator {
             valid_king_squares.any()
         };
 
-        // If the king can move, we're definitely not in checkmate or stalemate, so we can
-        // skip the expensive check for checkmate or stalemate through move generation
-        if !king_has_move {
+        // If the king can step to an empty, currently unattacked square and is not in check, we're
+        // definitely not in checkmate or stalemate, so we can skip the expensive check through move
+        // generation. When in check the shortcut is unsound: a square behind the king on the
+        // checking slider's ray looks unattacked only because the king itself blocks the ray.
+        if !king_has_move || state.is_check() {
             let legal_moves = MoveGenerator::compute_legal_moves(state);
             if legal_moves.is_empty() && state.is_check() {
                 return if state.turn_to_move() == perspective {
